@@ -603,14 +603,14 @@ cdef class CPUDomainManager(DomainManagerBase):
                 if copy.get_number_of_particles() > 0:
                     self._add_array_to_array(copy.get_carray('x'), xt_low)
                     self._mul_to_array(copy.get_carray('u'), -1)
-                    added.append_parray(copy)
+                    added.append_parray(copy, align=False)
 
                 # x_high
                 copy = pa.extract_particles( x_high )
                 if copy.get_number_of_particles() > 0:
                     self._add_array_to_array(copy.get_carray('x'), xt_high)
                     self._mul_to_array(copy.get_carray('u'), -1)
-                    added.append_parray(copy)
+                    added.append_parray(copy, align=False)
 
             if mirror_in_y:
                 # Now do the corners from the previous.
@@ -626,17 +626,17 @@ cdef class CPUDomainManager(DomainManagerBase):
                         high.append(i)
                         high_translate.append(2*(ymax - yi))
 
-                copy = added.extract_particles(low)
+                copy = added.extract_particles(low, None, False)
                 if copy.get_number_of_particles() > 0:
                     self._add_array_to_array(copy.get_carray('y'), low_translate)
                     self._mul_to_array(copy.get_carray('v'), -1)
-                    added.append_parray(copy)
+                    added.append_parray(copy, align=False)
 
-                copy = added.extract_particles(high)
+                copy = added.extract_particles(high, None, False)
                 if copy.get_number_of_particles() > 0:
                     self._add_array_to_array(copy.get_carray('y'), high_translate)
                     self._mul_to_array(copy.get_carray('v'), -1)
-                    added.append_parray(copy)
+                    added.append_parray(copy, align=False)
 
                 # Add the actual y_high and y_low now.
                 # y_high
@@ -644,14 +644,14 @@ cdef class CPUDomainManager(DomainManagerBase):
                 if copy.get_number_of_particles() > 0:
                     self._add_array_to_array(copy.get_carray('y'), yt_high)
                     self._mul_to_array(copy.get_carray('v'), -1)
-                    added.append_parray(copy)
+                    added.append_parray(copy, align=False)
 
                 # y_low
                 copy = pa.extract_particles( y_low )
                 if copy.get_number_of_particles() > 0:
                     self._add_array_to_array(copy.get_carray('y'), yt_low)
                     self._mul_to_array(copy.get_carray('v'), -1)
-                    added.append_parray(copy)
+                    added.append_parray(copy, align=False)
 
             if mirror_in_z:
                 # Now do the corners from the previous.
@@ -667,17 +667,17 @@ cdef class CPUDomainManager(DomainManagerBase):
                         high.append(i)
                         high_translate.append(2*(zmax - zi))
 
-                copy = added.extract_particles(low)
+                copy = added.extract_particles(low, None, False)
                 if copy.get_number_of_particles() > 0:
                     self._add_array_to_array(copy.get_carray('z'), low_translate)
                     self._mul_to_array(copy.get_carray('w'), -1)
-                    added.append_parray(copy)
+                    added.append_parray(copy, align=False)
 
-                copy = added.extract_particles(high)
+                copy = added.extract_particles(high, None, False)
                 if copy.get_number_of_particles() > 0:
                     self._add_array_to_array(copy.get_carray('z'), high_translate)
                     self._mul_to_array(copy.get_carray('w'), -1)
-                    added.append_parray(copy)
+                    added.append_parray(copy, align=False)
 
                 # Add the actual z_high and z_low now.
                 # z_high
@@ -685,17 +685,18 @@ cdef class CPUDomainManager(DomainManagerBase):
                 if copy.get_number_of_particles() > 0:
                     self._add_array_to_array(copy.get_carray('z'), zt_high)
                     self._mul_to_array(copy.get_carray('w'), -1)
-                    added.append_parray(copy)
+                    added.append_parray(copy, align=False)
 
                 # z_low
                 copy = pa.extract_particles( z_low )
                 if copy.get_number_of_particles() > 0:
                     self._add_array_to_array(copy.get_carray('z'), zt_low)
                     self._mul_to_array(copy.get_carray('w'), -1)
-                    added.append_parray(copy)
+                    added.append_parray(copy, align=False)
 
 
-            added.tag[:] = Ghost
+            # `added` is not aligned, so set the tag of every particle.
+            added.get_carray('tag').get_npy_array()[:] = Ghost
             pa.append_parray(added)
 
     cdef _box_wrap_periodic(self):
